@@ -203,30 +203,18 @@ impl PerVisibleAlphabetConstraints {
         set: &SetOperation,
         string_type: CharacterStringType,
     ) -> Result<Option<Self>, GrammarError> {
-        let base = Self::from_subtype_elem(Some(&set.base), string_type)?;
-        if set.operator == SetOperator::Except {
-            return Ok(base);
-        }
-        let operant = match &*set.operant {
-            ElementOrSetOperation::Element(e) => Self::from_subtype_elem(Some(e), string_type)?,
-            ElementOrSetOperation::SetOperation(inner) => {
-                Self::from_set_operation(inner, string_type)?
-            }
-        };
-        Ok(match (base, operant) {
-            (Some(mut base), Some(mut operant)) => {
-                if set.operator == SetOperator::Intersection {
-                    base.intersect(&operant);
-                } else {
-                    base += &mut operant;
-                }
-                Some(base)
-            }
-            // X.691 10.3.21: a union with a part that is not PER-visible is not PER-visible,
-            // in an intersection the parts that are not PER-visible are ignored
-            (_, _) if set.operator == SetOperator::Union => None,
-            (base, operant) => base.or(operant),
-        })
+        fold_by_precedence(
+            set,
+            |element| Self::from_subtype_elem(Some(element), string_type),
+            |mut base, operant| {
+                base.intersect(&operant);
+                Ok(Some(base))
+            },
+            |mut base, mut operant| {
+                base += &mut operant;
+                Ok(Some(base))
+            },
+        )
     }
 
     /// Builds the permitted alphabet of a list of serially applied constraints,
@@ -579,6 +567,78 @@ fn fold_constraint_set(
     char_set: Option<&BTreeMap<usize, char>>,
     range_constraint: bool,
 ) -> Result<Option<SubtypeElements>, GrammarError> {
+    let fold = |base: SubtypeElements, operator: SetOperator, operant: SubtypeElements| {
+        fold_set_operation(
+            &SetOperation {
+                base,
+                operator,
+                operant: Box::new(ElementOrSetOperation::Element(operant)),
+            },
+            char_set,
+            range_constraint,
+        )
+    };
+    fold_by_precedence(
+        set,
+        // an element on its own folds like the base of `element EXCEPT ..`
+        |element| fold(element.clone(), SetOperator::Except, element.clone()),
+        |base, operant| fold(base, SetOperator::Intersection, operant),
+        |base, operant| fold(base, SetOperator::Union, operant),
+    )
+}
+
+/// The parser delivers `a op b op c ..` as the chain `a op (b op (c ..))` whatever the operators are.
+/// X.680 clause 50 gives EXCEPT precedence over intersection and intersection precedence over union,
+/// and X.691 10.3.21 ignores an EXCEPT together with the elements that follow it: what is PER-visible
+/// of a chain is the union of its intersections. `None` stands for a part that is not PER-visible.
+fn fold_by_precedence<T>(
+    set: &SetOperation,
+    mut element: impl FnMut(&SubtypeElements) -> Result<Option<T>, GrammarError>,
+    mut intersect: impl FnMut(T, T) -> Result<Option<T>, GrammarError>,
+    mut unite: impl FnMut(T, T) -> Result<Option<T>, GrammarError>,
+) -> Result<Option<T>, GrammarError> {
+    let mut intersections = Vec::new();
+    let mut intersection = element(&set.base)?;
+    let mut link = set;
+    loop {
+        let (next_element, next_link) = match &*link.operant {
+            ElementOrSetOperation::Element(e) => (e, None),
+            ElementOrSetOperation::SetOperation(s) => (&s.base, Some(s)),
+        };
+        match link.operator {
+            SetOperator::Except => (),
+            SetOperator::Intersection => {
+                intersection = match (intersection, element(next_element)?) {
+                    (Some(base), Some(operant)) => intersect(base, operant)?,
+                    (base, operant) => base.or(operant),
+                }
+            }
+            SetOperator::Union => {
+                intersections.push(intersection);
+                intersection = element(next_element)?;
+            }
+        }
+        match next_link {
+            Some(s) => link = s,
+            None => break,
+        }
+    }
+    let mut union = intersection;
+    for intersection in intersections.into_iter().rev() {
+        union = match (intersection, union) {
+            (Some(base), Some(operant)) => unite(base, operant)?,
+            _ => return Ok(None),
+        };
+    }
+    Ok(union)
+}
+
+/// Folds `base operator operant`, the operant taken as a whole.
+fn fold_set_operation(
+    set: &SetOperation,
+    char_set: Option<&BTreeMap<usize, char>>,
+    range_constraint: bool,
+) -> Result<Option<SubtypeElements>, GrammarError> {
     let folded_operant = match (&set.operator, &*set.operant) {
         // X.691 10.3.21: an EXCEPT clause and the value set that follows it are ignored
         (SetOperator::Except, _) => None,
@@ -595,7 +655,7 @@ fn fold_constraint_set(
         | (SubtypeElements::PermittedAlphabet(elem_or_set), Some(base))
         | (base, Some(SubtypeElements::SizeConstraint(elem_or_set)))
         | (SubtypeElements::SizeConstraint(elem_or_set), Some(base)) => {
-            return fold_constraint_set(
+            return fold_set_operation(
                 &SetOperation {
                     base: base.clone(),
                     operator: set.operator.clone(),
